@@ -32,6 +32,12 @@ def get_lindblad_operators(
 
         dephasing[0, 0] = c
         dephasing[1, 1] = -c
+        # Pulser's dephasing operator is sqrt(2*rate)|r><r| (|d><d| for XY). With two levels
+        # c*(|g><g| - |r><r|) = c*(1 - 2|r><r|) generates the same dissipator; with a leakage
+        # level the identity needs its |x><x| entry too, otherwise the coherences between
+        # x and g/r decay at rates Pulser does not define.
+        for leak in range(2, dim):
+            dephasing[leak, leak] = c
 
         return [dephasing]
 
